@@ -405,6 +405,28 @@ pub fn check(prop: &str, tier: &str, extra: &[String]) -> i32 {
     let _ = std::fs::create_dir_all(&evidence_dir);
     let _ = extra;
 
+    // ---- regression replays: minimised traces of defects that were repaired; each must stay clean ----
+    let mut regression_failures: Vec<(PathBuf, String)> = vec![];
+    let mut regressions_run = 0u64;
+    if std::env::var("CCSIM_EVIDENCE_TAG").is_err() {
+        if let Ok(rd) = std::fs::read_dir(format!("{}/regressions", verif_root())) {
+            let mut files: Vec<PathBuf> = rd.flatten().map(|e| e.path()).filter(|p| p.file_name().and_then(|n| n.to_str()).map(|n| n.starts_with(&format!("{prop}-")) && n.ends_with(".json")).unwrap_or(false)).collect();
+            files.sort();
+            for f in files {
+                let Ok(text) = std::fs::read_to_string(&f) else { continue };
+                let Ok(t) = serde_json::from_str::<Trace>(&text) else { continue };
+                if t.features != wire::FEATURES {
+                    continue;
+                }
+                regressions_run += 1;
+                let (raw, _) = replay_subprocess(&f, b.watchdog);
+                if let Some(sig) = classify(prop, &raw, &t) {
+                    regression_failures.push((f, sig));
+                }
+            }
+        }
+    }
+
     let (tx, rx) = mpsc::channel::<WMsg>();
     let per_worker = b.runs.div_ceil(workers as u64);
     let mut ws: Vec<WorkerState> = (0..workers)
@@ -490,6 +512,17 @@ pub fn check(prop: &str, tier: &str, extra: &[String]) -> i32 {
     let mut exit_code = 0;
     let mut harness_error: Option<String> = None;
     let replay_timeout = b.watchdog;
+
+    for (f, sig) in &regression_failures {
+        if known.known.iter().any(|k| k.0 == prop && &k.1 == sig) {
+            continue;
+        }
+        println!("VIOLATION property={prop} replay={}", f.display());
+        println!("  signature: {sig}");
+        println!("  a repaired defect is back: this regression trace fails again");
+        reported.push(json!({"signature": sig, "replay": f.display().to_string(), "regression": true}));
+        exit_code = 1;
+    }
 
     // candidate list: (seed, preliminary signature or death class)
     let mut cands: Vec<(u64, Option<String>, String)> = vec![];
@@ -629,6 +662,7 @@ pub fn check(prop: &str, tier: &str, extra: &[String]) -> i32 {
                 "counts": agg.checks.iter().filter(|(k, _)| k.starts_with("enumerated-")).map(|(k, v)| (k.clone(), *v)).collect::<BTreeMap<String, u64>>(),
                 "objects_swept": agg.probes.iter().filter(|(k, _)| k.starts_with("sweep-")).map(|(k, v)| (k.clone(), *v)).collect::<BTreeMap<String, u64>>(),
             },
+            "regression_traces_replayed": regressions_run,
             "known_findings_seen": known_seen,
             "violations_detail": reported,
             "exhaustive": false
